@@ -101,17 +101,15 @@ def main():
 
 def with_evidence_kept(f):
     """The checks rewrite evidence/<id>.json on every run; what they write while /repo is mutated
-    must not stay behind (evidence describes the unchanged tree)."""
+    goes to a scratch directory (evidence/ describes the unchanged tree)."""
     import shutil, tempfile
-    ev = os.path.join(ROOT, "evidence")
-    keep = tempfile.mkdtemp(prefix="evidence-keep-")
-    shutil.copytree(ev, os.path.join(keep, "evidence"))
+    scratch = tempfile.mkdtemp(prefix="evidence-scratch-")
+    os.environ["VERIF_EVIDENCE_DIR"] = scratch
     try:
         return f()
     finally:
-        shutil.rmtree(ev, ignore_errors=True)
-        shutil.copytree(os.path.join(keep, "evidence"), ev)
-        shutil.rmtree(keep, ignore_errors=True)
+        os.environ.pop("VERIF_EVIDENCE_DIR", None)
+        shutil.rmtree(scratch, ignore_errors=True)
 
 
 if __name__ == "__main__":
